@@ -1,10 +1,15 @@
-HOOK_COMMITS = ["d747c05", "verif hook: export piece splitting / substitution / hash pre-image helpers of the linker under build tag verif", "verif hook: export printUnquotedUTF16 under build tag verif", "verif hook: synchronous access to a context's watch predicates under build tag verif", "verif hook: export css hex colour helpers under build tag verif", "verif: tree-shaking observation hook (build tag verif; no-op otherwise)"]
+HOOK_COMMITS = ["d747c05", "verif hook: export piece splitting / substitution / hash pre-image helpers of the linker under build tag verif", "verif hook: export printUnquotedUTF16 under build tag verif", "verif hook: synchronous access to a context's watch predicates under build tag verif", "verif hook: export css hex colour helpers under build tag verif", "verif: tree-shaking observation hook (build tag verif; no-op otherwise)", "verif hook: run AssignNamesByFrequency on given slots under build tag verif"]
 
 TEXT = {
     "C07": {
         "level": "Lean theorems for all integers/inputs on the model of internal/sourcemap (VLQ codec round-trip over the alphabet extracted from the source); the model is tied to the code by the regenerated alphabet fact and by a correspondence run; mapping truth end-to-end is searched, not proved.",
         "note": "Trusted: Lean kernel, extractor, correspondence harness generator quality, Go int = 64 bit. Where the printer adds mappings is not modelled (search only).",
         "technique": "Lean 4 proof on hand-written model + regenerated facts + differential correspondence; Node/Lean-decoded end-to-end search",
+    },
+    "C15": {
+        "level": "Lean theorems: the short-name function is injective for every duplicate-free alphabet (bijective numeration), names start with an identifier-start character, and the names AssignNamesByFrequency hands out in one namespace are pairwise different, never reserved (keywords, free identifiers) and capitalised where JSX needs it; tied by correspondence with the real minifier and the real AssignNamesByFrequency (verif hook). Binding preservation itself is a search: scope-heavy scripts with shadowing, hoisting, eval/with and ~60 free globals named like minified identifiers, run in Node before and after renaming; property mangling consistency is a text search over multi-entry builds. Seven defects found, six fixed, two known findings.",
+        "note": "Trusted: Lean kernel, hook + harness, Node 20. Scope analysis, slot assignment and the non-minifying renamer are exercised, not modelled.",
+        "technique": "Lean 4 proof on hand-written model + differential correspondence; Node run-time search; text search",
     },
     "C18": {
         "level": "Lean theorems (all inputs) that the length-prefixed hash pre-image encoding is injective and that piece splitting partitions the output; model tied to the linker by a correspondence run through verif-tagged exports. Whole-build oracles (same name => same bytes over single-point edits, reference integrity, no placeholder) are a search, not a proof; name_determines_bytes is a recorded known finding.",
